@@ -472,7 +472,17 @@ def _refill_rules(col, cx, r, sfx):
         compact = ("eq", ("bin", "Ne", beg0, mk_int(0)), 1) in st.facts
         cw = [e for e in evs if e.kind == "call" and e.extra.get("name") == "copy_within"]
         pre_stores = [e for e in stores if evs.index(e) < evs.index(rd)]
-        if compact:
+        empty_window = any(f[0] == "eq" and isinstance(f[1], tuple) and f[1] and f[1][0] == "bin" and {f[1][2], f[1][3]} == {beg0, end0} and ((f[1][1] == "Eq" and f[2] == 1) or (f[1][1] == "Ne" and f[2] == 0)) for f in st.facts)
+        reset_ok = False
+        if not compact and empty_window and not cw and pre_stores and _copy_skipped_only_when_empty(cx, b, r):
+            # an empty window is simply reset (begin = end = 0): nothing is kept, nothing needs moving
+            vals = {e.place[2]: e.val for e in pre_stores if e.place[0] == "field"}
+            if set(vals) <= {r.BEGIN, r.END} and all(v_ == mk_int(0) for v_ in vals.values()) and vals.get(r.BEGIN) == mk_int(0) and vals.get(r.END) == mk_int(0):
+                col.ok("W2" + sfx, b.loc(rd.bb), "%s|compaction|empty" % fk(b), "empty window: begin = end = 0 before the read")
+                reset_ok = True
+        if reset_ok:
+            pass
+        elif compact:
             # an empty window (begin == end on this path) has nothing to move: the copy may be skipped
             empty_window = any(f[0] == "eq" and isinstance(f[1], tuple) and f[1] and f[1][0] == "bin" and {f[1][2], f[1][3]} == {beg0, end0} and ((f[1][1] == "Eq" and f[2] == 1) or (f[1][1] == "Ne" and f[2] == 0)) for f in st.facts)
             ok = len(cw) == 1 and cw[0].args[1][0] == "agg" and cw[0].args[1][2] == (beg0, end0) and cw[0].args[2] == mk_int(0) and evs.index(cw[0]) < evs.index(rd)
@@ -481,7 +491,7 @@ def _refill_rules(col, cx, r, sfx):
                 ok = True
                 cw = [rd]
             vals = {e.place[2]: e.val for e in pre_stores if e.place[0] == "field"}
-            ok = ok and util.lin_equal(vals.get(r.END, mk_int(-1)), ("bin", "Sub", end0, beg0)) and vals.get(r.BEGIN) == mk_int(0)
+            ok = ok and (util.lin_equal(vals.get(r.END, mk_int(-1)), ("bin", "Sub", end0, beg0)) or (empty_window and vals.get(r.END) == mk_int(0))) and vals.get(r.BEGIN) == mk_int(0)
             if ok:
                 col.ok("W2" + sfx, b.loc(cw[0].bb), "%s|compaction" % fk(b), "copy_within(begin..end, 0); end -= begin; begin = 0 before the read")
             else:
@@ -688,6 +698,9 @@ def _sign_rules(col, cx, crate, r, sfx):
                 t = f[1]
                 if f[0] == "eq" and isinstance(t, tuple) and t and t[0] == "bin" and t[1] == "Eq" and t[3] == mk_int(45):
                     minus = bool(f[2])
+                # `match reader.peek() { b'-' => .., _ => .. }`: the switch is on the byte itself
+                if f[0] in ("eq", "ne") and f[2] == 45 and not isinstance(f[2], bool) and isinstance(t, tuple) and t and t[0] != "bin":
+                    minus = f[0] == "eq"
             for new in st.env.values():
                 # new = old*10 (+|-) digit
                 if not (isinstance(new, tuple) and new and new[0] == "bin" and new[1] in ("Add", "Sub")):
